@@ -161,6 +161,7 @@ class Executor:
         self.solver = z3.Solver()
         self.solver.set("timeout", 5000)
         self._seq_cache = {}
+        self.use_solver_pruning = True
         self.fresh_n = 0
         self.max_paths = max_paths
         self.npaths = 0
@@ -188,6 +189,8 @@ class Executor:
     def feasible(self, st, extra=None):
         """path pruning only (keeping an infeasible path is harmless): conjuncts over sequences are left out, so that the
         sequence solver is never needed here; `unknown` counts as feasible"""
+        if not self.use_solver_pruning:
+            return True
         self.solver.push()
         for c in st.pc:
             if not self._mentions_seq(c):
@@ -254,8 +257,8 @@ class Executor:
                 if isinstance(val, RefV):
                     base = st.frames[val.frame].get(val.local, UNINIT)
                     val = self._get(st, val.frame, base, val.proj, f)
-                elif isinstance(val, (SeqV, Opaque, ClosureV)):
-                    pass      # &[u8] / &str / &closure represented by the value itself
+                elif isinstance(val, (SeqV, Opaque, ClosureV)) or getattr(val, "self_ref", False) or z3.is_expr(val):
+                    pass      # &[u8] / &str / &closure / reference to a scalar: represented by the value itself
                 else:
                     raise Unsupported("deref of %r" % (val,))
             elif p[0] == "downcast":
@@ -269,6 +272,8 @@ class Executor:
                 if pl is None:
                     raise Unsupported("read of payload of variant %s::%s that this value does not carry" % (val.ety, p[1]))
                 val = Agg(pl)
+            elif p[0] == "constindex" and hasattr(val, "at"):
+                val = val.at(p[1])
             else:
                 raise Unsupported("projection %r" % (p,))
         return val
@@ -322,10 +327,13 @@ class Executor:
         fr[place.local] = self._set(st, fr.get(place.local, UNINIT), place.proj, new)
 
     def deref_val(self, st, v):
-        """value a reference points to (slices/opaques are their own referent)"""
-        if isinstance(v, RefV):
-            base = st.frames[v.frame].get(v.local, UNINIT)
-            return self._get(st, v.frame, base, v.proj, None)
+        """value a reference points to (slices/opaques are their own referent); follows reference chains"""
+        for _ in range(8):
+            if isinstance(v, RefV):
+                base = st.frames[v.frame].get(v.local, UNINIT)
+                v = self._get(st, v.frame, base, v.proj, None)
+            else:
+                break
         return v
 
     # ------------------------------------------------------------ operands / rvalues
@@ -356,7 +364,53 @@ class Executor:
         mc = re.fullmatch(r"\{closure@(.*)\}", t, re.S)
         if mc:
             return ClosureV(mc.group(1).strip())
+        if re.search(r"::promoted\[\d+\]$", t):
+            return self.promoted(t)
         raise Unsupported("constant %r" % t)
+
+    def promoted(self, name):
+        """a promoted constant: run its body and strip the references (a reference to a scalar is the scalar)"""
+        cands = [n for n in self.funcs if n == name or name.endswith("::" + n)]
+        if len(cands) != 1:
+            raise Unsupported("promoted constant %s" % name)
+        st = State()
+        f = self.funcs[cands[0]]
+        st2 = st.clone()
+        frame = {}
+        st2.frames.append(frame)
+        # run inline (single block bodies): execute and read _0 before the frame disappears
+        outs = self.run_keep(f, st2)
+        if len(outs) != 1:
+            raise Unsupported("promoted constant %s has %d paths" % (name, len(outs)))
+        s3, v = outs[0]
+        for _ in range(8):
+            if isinstance(v, RefV):
+                v = self._get(s3, v.frame, s3.frames[v.frame].get(v.local, UNINIT), v.proj, None)
+            else:
+                break
+        if isinstance(v, RefV):
+            raise Unsupported("promoted constant %s: reference chain" % name)
+        return v
+
+    def run_keep(self, f, st):
+        """execute a straight-line zero-argument body in the frame already pushed on st; returns [(state, value of _0)]"""
+        bb, seen = 0, set()
+        while True:
+            if bb in seen:
+                raise Unsupported("loop in promoted constant")
+            seen.add(bb)
+            blk = f.block(bb)
+            for stmt in blk["stmts"]:
+                if stmt.kind != "assign":
+                    raise Unsupported("statement in promoted constant")
+                self.write_place(st, f, stmt.place, self.eval_rvalue(st, f, stmt.rv, self.place_type(f, stmt.place)))
+            t = blk["term"]
+            if t.kind == "goto":
+                bb = t.target
+                continue
+            if t.kind == "return":
+                return [(st, st.frames[-1].get(0, UNIT))]
+            raise Unsupported("terminator in promoted constant")
 
     def eval_operand(self, st, f, op):
         if op.kind in ("copy", "move"):
@@ -396,6 +450,8 @@ class Executor:
                 return z3.Not(a) if z3.is_bool(a) else ~a
             if rv.op == "Neg":
                 return -a
+            if rv.op == "PtrMetadata" and hasattr(a, "length64"):
+                return a.length64()
             raise Unsupported("unary op %s" % rv.op)
         if k == "discriminant":
             v = self.read_place(st, f, rv.place)
@@ -431,6 +487,8 @@ class Executor:
             v = self.read_place(st, f, rv.place)
             if isinstance(v, SeqV):
                 return z3.Int2BV(z3.Length(v.e), 64)
+            if hasattr(v, "length64"):
+                return v.length64()
             raise Unsupported("Len of %r" % (v,))
         raise Unsupported("rvalue kind %s" % k)
 
@@ -446,7 +504,7 @@ class Executor:
             v = self._get(st, fr, base, proj[:idx], None)
             if isinstance(v, RefV):
                 fr, local, proj = v.frame, v.local, v.proj + proj[idx + 1:]
-            elif isinstance(v, (SeqV, Opaque)):
+            elif isinstance(v, (SeqV, Opaque)) or getattr(v, "self_ref", False):
                 return v
             else:
                 raise Unsupported("reference through %r" % (v,))
